@@ -43,6 +43,23 @@ def _patch_crosshair():
             stats["solver_s"] += time.perf_counter() - t
 
     z3.Solver.check = check
+
+    # A symbolic int compared with / added to an *integral float literal* (RxPY writes `d <= 0.0`, `max(0.0, p)`,
+    # `clock += 1.0`) is promoted to real arithmetic by CrossHair, after which even a three-line function is
+    # undecided in a minute (probed: DESIGN §9).  Ticks are integers, so the literal is converted exactly instead.
+    from crosshair.libimpl import builtinslib as _bl
+
+    _orig_binop = _bl.numeric_binop_internal
+    _SI = _bl.SymbolicInt
+
+    def _binop(op, a, b):
+        if type(b) is float and isinstance(a, _SI) and b == b and b not in (float("inf"), float("-inf")) and b == int(b):
+            b = int(b)
+        elif type(a) is float and isinstance(b, _SI) and a == a and a not in (float("inf"), float("-inf")) and a == int(a):
+            a = int(a)
+        return _orig_binop(op, a, b)
+
+    _bl.numeric_binop_internal = _binop
     return stats
 
 
